@@ -61,20 +61,44 @@ _WORDS = None
 
 
 def reserved_words():
-    """Every identifier that occurs in the sources of sa/ (for helpers local
-    to a function, whose names carry no leading underscore)."""
+    """Identifiers the sources of sa/ may anchor on (for helpers local to a
+    function or to a function-local class, whose names carry no leading
+    underscore): every name token of the code, every identifier inside a
+    string literal without blanks, and from prose strings (messages) only
+    the words that look like program identifiers (an underscore, a digit or
+    an inner capital) -- plain English words of a message reserve nothing."""
     global _WORDS
     if _WORDS is None:
+        import io
+        import tokenize
         words = set()
         here = os.path.dirname(os.path.abspath(__file__))
+        ident = re.compile(r"[A-Za-z_][A-Za-z0-9_]*")
         for root, _dirs, files in os.walk(here):
             for fn in files:
-                if fn.endswith(".py") and fn not in ("variant_defs.py", "inline.py"):
-                    try:
-                        with open(os.path.join(root, fn), encoding="utf-8") as fh:
-                            words |= set(re.findall(r"[A-Za-z_][A-Za-z0-9_]*", fh.read()))
-                    except OSError:
-                        pass
+                if not fn.endswith(".py") or fn in ("variant_defs.py", "inline.py"):
+                    continue
+                try:
+                    with open(os.path.join(root, fn), encoding="utf-8") as fh:
+                        src = fh.read()
+                except OSError:
+                    continue
+                try:
+                    toks = list(tokenize.generate_tokens(io.StringIO(src).readline))
+                except (tokenize.TokenError, IndentationError, SyntaxError):
+                    words |= set(ident.findall(src))
+                    continue
+                for t in toks:
+                    if t.type == tokenize.NAME:
+                        words.add(t.string)
+                    elif t.type == tokenize.STRING or t.type == getattr(tokenize, "FSTRING_MIDDLE", -1):
+                        body = t.string
+                        if not re.search(r"\s", body.strip("rbfuRBFU").strip("'\"")):
+                            words |= set(ident.findall(body))
+                        else:
+                            for w in ident.findall(body):
+                                if "_" in w.strip("_") or re.search(r"[0-9]|[a-z][A-Z]", w):
+                                    words.add(w)
         _WORDS = words
     return _WORDS
 
@@ -233,8 +257,7 @@ class Helper:
             if x is fn:
                 continue
             if isinstance(x, (ast.Yield, ast.YieldFrom, ast.Await, ast.Global, ast.Nonlocal,
-                              ast.FunctionDef, ast.AsyncFunctionDef, ast.ClassDef,
-                              ast.Try)):
+                              ast.FunctionDef, ast.AsyncFunctionDef, ast.ClassDef)):
                 return
             if isinstance(x, ast.Call):
                 f = x.func
@@ -247,6 +270,9 @@ class Helper:
         if not rets or (len(rets) == 1 and rets[0] is self.body[-1]):
             self.shape = "block"
             self.ret = rets[0].value if rets else None
+            return
+        # a `try` is spliced as it stands only where no return leaves it
+        if any(isinstance(x, ast.Try) for x in ast.walk(fn)):
             return
         if _nest(self.body) is not None:
             self.nested = True
@@ -341,11 +367,17 @@ class Inliner:
         self.done = []
         self.local_cache = {}
         self.local_done = []        # (enclosing FunctionDef, helper FunctionDef)
-        for n in tree.body:
-            if isinstance(n, ast.FunctionDef):
+        self.cls_by_node = {}
+        top = set(map(id, tree.body))
+        for n in ast.walk(tree):
+            if isinstance(n, ast.FunctionDef) and id(n) in top:
                 self._register(self.mod_helpers, n, "function")
             elif isinstance(n, ast.ClassDef):
-                d = self.cls_helpers.setdefault(n.name, {})
+                # classes written inside functions (the iterator classes of
+                # the operators) have private methods too
+                d = self.cls_by_node.setdefault(id(n), {})
+                if id(n) in top:
+                    self.cls_helpers[n.name] = d
                 for m in n.body:
                     if isinstance(m, ast.FunctionDef):
                         decs = [ast.unparse(x) for x in m.decorator_list]
@@ -353,13 +385,16 @@ class Inliner:
                             "class" if decs == ["classmethod"] else \
                             "method" if not decs else None
                         if kind:
-                            self._register(d, m, kind)
+                            # a class written inside a function cannot be named
+                            # from outside: all its plain methods are its own
+                            self._register(d, m, kind, local=id(n) not in top)
 
-    def _register(self, table, fn, kind):
+    def _register(self, table, fn, kind, local=False):
         nm = fn.name
-        if not nm.startswith("_") or (nm.startswith("__") and nm.endswith("__")):
+        if (not nm.startswith("_") and not local) or \
+                (nm.startswith("__") and nm.endswith("__")):
             return
-        if nm in self.reserved:
+        if nm in self.reserved or (not nm.startswith("_") and nm in reserved_words()):
             return
         if kind == "function" and fn.decorator_list:
             return
@@ -415,7 +450,7 @@ class Inliner:
                 s = stack[i]
                 if isinstance(s, ast.FunctionDef) and s.args.args and s.args.args[0].arg == X:
                     if i > 0 and isinstance(stack[i - 1], ast.ClassDef):
-                        h = self.cls_helpers.get(stack[i - 1].name, {}).get(f.attr)
+                        h = self.cls_by_node.get(id(stack[i - 1]), {}).get(f.attr)
                         decs = [ast.unparse(x) for x in s.decorator_list]
                         if h is not None and h.fn is not s and (
                                 (h.kind == "method" and not decs) or
@@ -865,11 +900,11 @@ def _drop_dead_helpers(tree, names, only_here):
                 refs += 1
             elif isinstance(n, ast.Constant) and n.value == nm:
                 refs += 1
-        if refs == 0 and len(defs) == 1:
-            blk, st = defs[0]
-            blk.remove(st)
-            if not blk:
-                blk.append(ast.copy_location(ast.Pass(), st))
+        if refs == 0 and defs:
+            for blk, st in defs:
+                blk.remove(st)
+                if not blk:
+                    blk.append(ast.copy_location(ast.Pass(), st))
             dropped.append(nm)
     return dropped
 
